@@ -35,7 +35,7 @@ PROP = dict(
     jobs=dict(
         quick=[
             job(PKG, "^TestVerifC16Repro$", ["TestVerifC16Repro"], 1, shards=1),
-            job(PKG, "^TestVerifC16Sequential$", ["TestVerifC16Sequential"], 350, shards=8),
+            job(PKG, "^TestVerifC16Sequential$", ["TestVerifC16Sequential"], 250, shards=8),
             job(PKG, "^TestVerifC16Concurrent$", ["TestVerifC16Concurrent"], 30, shards=2),
         ],
         thorough=[
